@@ -279,8 +279,8 @@ Definition call_fn (f : fnid) (args : list str) : str :=
   | FReplace => replace_fn (strip a0) (if has_arg 1 args then or_space a1 else [32]) a2
   | FExplode => explode_fn (strip a0) (if has_arg 1 args then or_space a1 else [32])
                            (parse_int (strip a2)) (parse_int (strip a3))
-  | FPadleft => padleft a0 (if has_arg 1 args then digit_count (strip a1) else O) (if has_arg 2 args then a2 else [48])
-  | FPadright => padright a0 (if has_arg 1 args then digit_count (strip a1) else O) (if has_arg 2 args then a2 else [48])
+  | FPadleft => padleft a0 (if has_arg 1 args then Nat.min (digit_count (strip a1)) 500 else O) (if has_arg 2 args then a2 else [48])
+  | FPadright => padright a0 (if has_arg 1 args then Nat.min (digit_count (strip a1)) 500 else O) (if has_arg 2 args then a2 else [48])
   | FLc => lower (strip a0)
   | FUc => upper (strip a0)
   | FLcfirst => match strip a0 with [] => [] | c :: r => lower_c c :: r end
